@@ -524,6 +524,11 @@ class Verdict:
         val = mk_field(elem, "1", "")
         if not (y == mk_deref(val) or y == val):
             return None
+        # `traced <= strong` established for this member (a guard in front of a plain `strong - traced`)
+        if (op in ("Ge", "Gt", "Eq") and truth) or (op in ("Lt", "Le") and not truth):
+            st = add(st, ("traced_le_strong", g[1]))
+            if ("vd_iter", M, N) not in st.flags:
+                return st
         if ("vd_iter", M, N) not in st.flags:
             return None
         # normalise to: (strong > traced) is `ext`
@@ -586,6 +591,12 @@ class Verdict:
             ok = True
         elif isinstance(amount, tuple):
             ok = amount_is_traced(amount, traced, b, ev)
+            # a plain `strong - traced` wraps when the trace attributed more references than exist (recorded adoptions
+            # may exceed the handles: unadopt is optional): it needs min(traced, strong), saturation or a guard
+            v = ev.value
+            if ok and ev.cls == "sub" and v[0] == "bin" and v[1] in ("Sub", "SubUnchecked") and not is_const(amount, 0) and not bounded_by_strong(amount, b) \
+                    and ("traced_le_strong", b) not in st.flags:
+                eng.violate("PROV-1", "group-lowering-can-wrap", "group teardown stores `strong - %s` into a member's strong count without min(), saturation or a guard: when more adoptions are recorded than handles exist (unadopt is optional) the subtraction wraps and the member survives its group's teardown with a garbage count" % show(amount)[:60], ev.b, st)
         if not ok:
             eng.violate("PROV-1", "lower-amount-not-from-trace", "group teardown lowers the strong count of a member by %s, which does not derive from the count the trace attributed to that member (the orphan test compared `strong` with that traced count)" % (
                 show(amount)[:160] if isinstance(amount, tuple) else "one per member"), ev.b, st)
@@ -641,6 +652,18 @@ class Verdict:
             if counter_read(x) is None:
                 return x
         return None
+
+
+def bounded_by_strong(a, box):
+    """`min(.., strong(box))`: an amount that cannot exceed the member's own strong count."""
+    if a[0] == "call" and a[2] in ("core::cmp::Ord::min", "core::cmp::min") and len(a[3]) == 2:
+        for x in a[3]:
+            g = counter_read(x)
+            if g is not None and g[1] == box and g[2] == "strong":
+                return True
+        return any(bounded_by_strong(x, box) for x in a[3])
+    g = counter_read(a)
+    return g is not None and g[1] == box and g[2] == "strong"
 
 
 def known_kind(st, kexpr):
